@@ -71,7 +71,7 @@ def Storage_GetHash : List String := ["cacheTierFor().Get", "cacheTierFor"]
 def Storage_GetList : List String := ["getList"]
 def Storage_Incr : List String := ["IncrBy"]
 def Storage_IncrBy : List String := ["cacheTierFor", "counter.IncrBy", "lockKey", "cache.Get", "cache.Set"]
-def Storage_RemoveFromList : List String := ["lockKey", "getList", "cacheTierFor().Delete", "cacheTierFor", "getCategory", "setLocked"]
+def Storage_RemoveFromList : List String := ["lockKey", "getList", "getCategory", "setLocked"]
 def Storage_Set : List String := ["lockKey", "setLocked"]
 def Storage_SetExpiration : List String := ["lockKey", "cacheTierFor", "cache.Get", "cache.Set"]
 def Storage_SetHash : List String := ["cacheTierFor().Set", "cacheTierFor"]
